@@ -611,12 +611,57 @@ func (w *World) prove(g boundsGoal, lib libFacts, depth int) (bool, string) {
 			ok2, why := w.prove(boundsGoal{fn: fn, site: g.site, slice: g.slice, minLen: -c2}, lib, depth)
 			return ok2, fmt.Sprintf("index len%+d: %s", c2, why)
 		}
+		// i = indexOf(x, …) + c with indexOf ∈ [0, len(x)] (the position, or len when absent)
+		if call, isCall := r.(*ssa.Call); isCall && c >= 0 && len(call.Call.Args) > 0 && w.indexOfContract(staticCallee(call)) {
+			if sameKey(w.keyOf(call.Call.Args[0]), key) {
+				slack := c
+				if !g.upperIncl {
+					slack = c + 1
+				}
+				flds := pathFields(g.slice)
+				var killed ssa.Instruction
+				allInstrs(fn, func(k ssa.Instruction) {
+					// (a path back to the site that runs the call again starts afresh)
+					isCallAgain := func(j ssa.Instruction) bool { return j == ssa.Instruction(call) }
+					if killed == nil && w.killsKey(k, key, flds) && reach(fn, call, func(j ssa.Instruction) bool { return j == k }, isCallAgain, nil) != nil && reach(fn, k, func(j ssa.Instruction) bool { return j == g.site }, isCallAgain, nil) != nil {
+						killed = k
+					}
+				})
+				switch {
+				case killed != nil:
+				case slack <= 0:
+					return true, "index is the result of " + staticCallee(call).Name() + " on the same slice (≤ len)"
+				case slack == 1:
+					// under result != len(x)
+					guard := onlyVia(fn, g.site, func(a, b *ssa.BasicBlock) bool {
+						x, op, y, ok := edgeFact(a, b)
+						if !ok || op != token.NEQ {
+							return false
+						}
+						if y == ssa.Value(call) {
+							x, y = y, x
+						}
+						if x != ssa.Value(call) {
+							return false
+						}
+						lc, isLen := y.(*ssa.Call)
+						return isLen && calleeName(lc) == "builtin.len" && sameKey(w.keyOf(lc.Call.Args[0]), key)
+					})
+					if guard {
+						return true, "index is the result of " + staticCallee(call).Name() + " on the same slice, under result != len (found)"
+					}
+				}
+			}
+		}
 		// range index over the same slice
 		if isRangeIndexOf(g.index) && c == 0 {
 			// the loop's bound is len of the ranged slice: find the header condition
 			if okR, whyR := w.rangeIndexOver(fn, g.index, key); okR {
 				return true, whyR
 			}
+		}
+		if !g.upperIncl && w.rangeIndexIntoMake(g.index, g.slice) {
+			return true, "range index over xs into make(…, len(xs))"
 		}
 		// φ index: prove every alternative at its own edge
 		if phi, isPhi := g.index.(*ssa.Phi); isPhi && depth < 3 {
@@ -888,6 +933,98 @@ func (w *World) rangeIndexOver(fn *ssa.Function, v ssa.Value, key sliceKey) (boo
 		// the only stores may be the element/field write that uses the index itself; accept stores that happen after the access and leave the loop
 		return false, "range index over " + key.String() + " but " + why
 	}
+}
+
+// rangeIndexIntoMake: v is the index of `for i := range xs` and slice is `make([]T, len(xs))` with xs the
+// same (immutable) value: slot i exists, and every slot gets its iteration.
+func (w *World) rangeIndexIntoMake(v ssa.Value, slice ssa.Value) bool {
+	bo, ok := v.(*ssa.BinOp)
+	if !ok || !isRangeIndexOf(v) {
+		return false
+	}
+	ifi := blockIf(bo.Block())
+	if ifi == nil {
+		return false
+	}
+	cond, ok := ifi.Cond.(*ssa.BinOp)
+	if !ok || cond.Op != token.LSS || cond.X != ssa.Value(bo) {
+		return false
+	}
+	lc, ok := cond.Y.(*ssa.Call)
+	if !ok || calleeName(lc) != "builtin.len" {
+		return false
+	}
+	mk, ok := slice.(*ssa.MakeSlice)
+	if !ok {
+		return false
+	}
+	ml, ok := mk.Len.(*ssa.Call)
+	if !ok || calleeName(ml) != "builtin.len" {
+		return false
+	}
+	a, b := lc.Call.Args[0], ml.Call.Args[0]
+	if a != b {
+		return false
+	}
+	// the ranged value is a register (a parameter, a call result): it cannot change between the two len()s
+	switch a.(type) {
+	case *ssa.Parameter, *ssa.Extract, *ssa.Call, *ssa.Slice, *ssa.MakeSlice:
+		return true
+	}
+	return false
+}
+
+// indexOfContract: f(slice, …) returns an index of a loop over its first argument that is bounded by the
+// argument's length, or that length: a value in [0, len(slice)].
+func (w *World) indexOfContract(f *ssa.Function) bool {
+	if f == nil || len(f.Params) == 0 || len(f.Blocks) == 0 {
+		return false
+	}
+	if _, isSlice := f.Params[0].Type().Underlying().(*types.Slice); !isSlice {
+		return false
+	}
+	if w.idxOfMemo == nil {
+		w.idxOfMemo = map[*ssa.Function]bool{}
+	}
+	if v, ok := w.idxOfMemo[f]; ok {
+		return v
+	}
+	okAll := len(returnsOf(f)) > 0
+	for _, ret := range returnsOf(f) {
+		if len(ret.Results) != 1 {
+			okAll = false
+			break
+		}
+		v := ret.Results[0]
+		if c, ok := v.(*ssa.Call); ok && calleeName(c) == "builtin.len" && c.Call.Args[0] == ssa.Value(f.Params[0]) {
+			continue
+		}
+		if phi, ok := v.(*ssa.Phi); ok {
+			if l, ok := structuralLower(phi); ok && l >= 0 {
+				if onlyVia(f, ret, func(a, b *ssa.BasicBlock) bool {
+					x, op, y, ok := edgeFact(a, b)
+					if !ok || op != token.LSS || x != ssa.Value(phi) {
+						return false
+					}
+					c, isCall := y.(*ssa.Call)
+					return isCall && calleeName(c) == "builtin.len" && c.Call.Args[0] == ssa.Value(f.Params[0])
+				}) {
+					continue
+				}
+			}
+		}
+		okAll = false
+	}
+	// the function must not write its argument
+	allInstrs(f, func(i ssa.Instruction) {
+		if st, ok := i.(*ssa.Store); ok {
+			if _, local := st.Addr.(*ssa.Alloc); !local {
+				okAll = false
+			}
+		}
+	})
+	w.idxOfMemo[f] = okAll
+	return okAll
 }
 
 // provePhiIndex: every alternative of a φ index is provable where it enters the φ.
